@@ -1090,6 +1090,9 @@ func SameCond(a, b ssa.Value) bool {
 		return false
 	}
 	first, second := ssa.Instruction(la), ssa.Instruction(lb)
+	if Dominates(second, first) && !Dominates(first, second) {
+		first, second = second, first
+	}
 	if !Reaches(first, second) {
 		first, second = second, first
 		if !Reaches(first, second) {
@@ -1123,7 +1126,22 @@ func SameCond(a, b ssa.Value) bool {
 				}
 			}
 		}
-		if writes && Reaches(first, in) && Reaches(in, second) {
+		if !writes {
+			return
+		}
+		if Dominates(first, second) {
+			// every way to the second load passes the first: only a write after the last visit of the
+			// first load counts (a write further round the enclosing loop is followed by the first load again)
+			avoidFirst := PathQuery{Stop: func(x ssa.Instruction) bool { return x == first }}
+			q1, q2 := avoidFirst, avoidFirst
+			q1.Target = func(x ssa.Instruction) bool { return x == in }
+			q2.Target = func(x ssa.Instruction) bool { return x == second }
+			if pathSearchInsensitive(first.Block(), InstrIndex(first)+1, q1) != nil && pathSearchInsensitive(in.Block(), InstrIndex(in)+1, q2) != nil {
+				bad = true
+			}
+			return
+		}
+		if Reaches(first, in) && Reaches(in, second) {
 			bad = true
 		}
 	})
